@@ -1,5 +1,6 @@
 import SJ.Props.C16
 import SJ.Props.Typed
+import SJ.Props.C16Float
 #print axioms SJ.Props.C16.c16_owned_borrowed
 #print axioms SJ.Props.C16.c16_agree_partial
 #print axioms SJ.Props.C16.c16_ignored_total
@@ -12,6 +13,8 @@ import SJ.Props.Typed
 #print axioms SJ.Props.C16.c16_routing_tied
 #print axioms SJ.Props.C16.c16_result_comparator_exact
 #print axioms SJ.Props.C16.c16_text_agrees_partial
+#print axioms SJ.Props.C16.c16_text_agrees_nofloat
+#print axioms SJ.Props.C16.c16_text_agrees_fr
 #print axioms SJ.Props.Typed.typed_fuel_suffices
 #print axioms SJ.Props.Typed.typed_fuel_irrelevant
 #print axioms SJ.Props.Typed.typed_no_panic
